@@ -93,6 +93,39 @@ theorem cg_loops_irrel (mod fn : String) (φ : String → Option String) : ∀ (
             simp only [Frag.depthGS] at hd
             have h1 := fun env' => ihB il rt loops loops' t env' (by omega) hok.2 hh
             simp only [cgS, Frag.wsGS, (h1 _).1, (h1 _).2, and_self]
+        case matchE msp ty c arms dflt =>
+          cases dflt with
+          | none => simp [Frag.okGS] at hok
+          | some d =>
+            cases d <;> try (simp [Frag.okGS] at hok; done)
+            rename_i db
+            simp only [Frag.okGS, Bool.and_eq_true] at hok
+            simp only [Frag.depthGS] at hd
+            have harms : ∀ (arms : List (List Expr × Expr)) (after : String) (nms : List String) (env' : CEnv),
+                Frag.depthGArmsS arms ≤ n → Frag.okGArmsS il rt arms = true →
+                cgArmsS mod fn φ loops msp after arms nms env' = cgArmsS mod fn φ loops' msp after arms nms env' ∧
+                Frag.wsGArmsS mod fn φ loops arms env' = Frag.wsGArmsS mod fn φ loops' arms env' := by
+              intro arms
+              induction arms with
+              | nil => intro _ _ _ _ _; exact ⟨rfl, rfl⟩
+              | cons a rest iha =>
+                intro after nms env' hda hoka
+                obtain ⟨lits, act⟩ := a
+                cases act <;> try (simp [Frag.okGArmsS] at hoka; done)
+                rename_i b
+                simp only [Frag.okGArmsS, Bool.and_eq_true] at hoka
+                simp only [Frag.depthGArmsS] at hda
+                have h1 := fun env'' => ihB il rt loops loops' b env'' (by omega) hoka.1.2 hh
+                have h2 := fun nms' env'' => iha after nms' env'' (by omega) hoka.2
+                constructor
+                · cases nms with
+                  | nil => rfl
+                  | cons nm nms => simp only [cgArmsS, (h1 _).1, (h2 _ _).1]
+                · simp only [Frag.wsGArmsS, (h1 _).1, (h1 _).2, (h2 [] _).2]
+            have h1 := fun after nms env' => harms arms after nms env' (by omega) hok.1.2
+            have h2 := fun env' => ihB il rt loops loops' db env' (by omega) hok.2 hh
+            have h1w := fun env' => (harms arms "" [] env' (by omega) hok.1.2).2
+            simp only [cgS, Frag.wsGS, (h1 _ _ _).1, h1w, (h2 _).1, (h2 _).2, and_self]
         case tryE tsp ty t ci c =>
           obtain ⟨csp', cty', cstmts, coe⟩ := c
           cases coe with
